@@ -91,11 +91,24 @@ PROPS = {
                                  "payload bytes: see C14; JSON marshalling of plugins/matrix: Marshal model, differentially checked byte-for-byte through the payload"],
         explanation="Induction over the nested step type: success iff no unknown step at any depth; only signatures change; every command step gets exactly sign's record (algorithm, sorted mandatory + unshadowed env:: fields) which verifies; tree correspondence incl. caller-env immutability and per-step verification on the implementation.",
     ),
+    "C13": dict(
+        level="proof", gen=True, corr_name="Parse (driver mode parse)",
+        trusted_base=COMMON_TB + ["yaml.v3 scanner/parser/tag resolution/scalar decoding: the model starts at the decoded document tree (ordered.DecodeYAML output; alias/merge expansion is C07's subject)",
+                                 "struct descriptors and step-kind tables regenerated from the source (Gen/Structs, Gen/StepKinds); the parse model interprets them (Unm.taken / remainder)",
+                                 "encoding/json and the yaml.v3 emitter: the model ends at the value tree handed to the encoders; the harness re-decodes the real output order-preservingly and compares"] + ["C13_bytes_partial: 'any byte sequence, bounded time, never panics' at the byte level is yaml.v3's scanner/parser plus the Go runtime; the harness drives documents with injected type errors and mutated renderings through Parse with recover; this sampling is support, not proof"],
+        explanation="Totality by construction; step-count/order/derivation, unknown fallback verbatim + one warning each, enumerated hard-error causes, marshal succeeds (Lean). Correspondence of typed dump + warning kinds + hard-error class on grammar-generated documents with injected type errors.",
+    ),
 }
 
 NOT_APPLICABLE = {}
 
 MANIFEST_TEXT = {
+    "C13": dict(
+        text="Kernel-checked proofs (Lean 4) about a total function mirroring the whole parse path after YAML decoding (Pipeline/Steps/stepFromMap and every UnmarshalOrdered, over struct descriptors and kind tables regenerated from source): a usable result has a non-nil step list holding exactly the parse of each entry of the input step sequence, in order and recursively inside groups; a step is unknown exactly with its input entry verbatim and one warning, every other step without; hard errors arise only from an entry that is neither string nor mapping or a non-string type; malformed typed steps fall back instead of aborting; marshalling the result succeeds. Tied by correspondence on grammar-generated documents (block/flow YAML, JSON) with type errors injected at every typed position: typed dump, warning kinds in order, hard-error class. The byte level (scanner, parser, runtime limits) is exercised only (partial).",
+        design_ref="DESIGN.md §6 C13",
+        note="Trusted: Lean kernel; yaml.v3 up to the decoded tree; translators for descriptors/tables; the correspondence. Byte-level totality is partial (sampling).",
+        technique="Lean 4 proofs about a total parse function (induction over step lists / nesting fuel) + correspondence incl. injected type errors",
+    ),
     "C01": dict(
         text="Kernel-checked proofs (Lean 4) over a mirror of Sign/Verify/ValuesForFields/requireKeys and an abstract signature scheme with the idealised unforgeability hypotheses A1/A2: if a record carrying a genuine signature value verifies against a presented step, env, repository URL, record and key, then the key is the signing key, the algorithm name, command, repository URL, step env, plugin sequence (canonical sources and configs, in order), matrix and every signed pipeline env variable equal what was signed and the field list names exactly the signed fields; dropping a mandatory field, garbage or empty field lists fail outright; the honest signature verifies under any env extending the pipeline env; reordering/duplicating the field list is not a semantic change. Uses the payload injectivity of C14. Tied by a mutation matrix (about 45 single-point mutation classes) on the real Verify with EdDSA, ES512, PS512 JWKs and an ES256 crypto.Signer against the model with a recording scheme, and by regenerated signing tables.",
         design_ref="DESIGN.md §6 C01",
